@@ -269,6 +269,7 @@ type outcome struct {
 	Status  int     `json:"status"`
 	Err     string  `json:"error,omitempty"`
 	Calls   []call  `json:"calls,omitempty"`
+	Resumed bool    `json:"tls_session_resumed,omitempty"` // the connection that carried the request resumed an earlier TLS session
 }
 
 type scenarioResult struct {
@@ -438,6 +439,11 @@ func drive(label, tsURL string, ccfg *tls.Config, rec *recorder, reqs []request)
 			if resp != nil {
 				oc.Status = resp.StatusCode
 			}
+			if conn != nil {
+				if tc, ok := conn.UnderlyingConn().(*tls.Conn); ok {
+					oc.Resumed = tc.ConnectionState().DidResume
+				}
+			}
 			if err != nil {
 				oc.Err = err.Error()
 			} else {
@@ -472,6 +478,9 @@ func drive(label, tsURL string, ccfg *tls.Config, rec *recorder, reqs []request)
 				_, _ = io.Copy(io.Discard, resp.Body)
 				_ = resp.Body.Close()
 				oc.Status = resp.StatusCode
+				if resp.TLS != nil {
+					oc.Resumed = resp.TLS.DidResume
+				}
 			}
 		}
 		// handlers record before they answer; the answer has been read completely at this point
